@@ -73,7 +73,15 @@ OBS = [
  ("try { return [][1] } catch e { return string(e) } finally { z := 1 }", []),
  ("a := 1\nb := func() { a += 1; return a }\nreturn [b(), b(), a]", []),
  ("return undefined", []),
+ ("global (gx, gy)\nreturn [gx, gy]", []),
+ ("global gx\nf := func() { return gx }\nreturn [f(), gx == undefined]", []),
 ]
+
+# history shapes that leave values in globals (declared with the global keyword: they also work when
+# Run is given no globals object)
+GLOBAL_HIST = [("globals:set", "global (gx, gy)\ngx = 42\ngy = [1, 2]\nreturn gx", 0),
+               ("globals:set-throw", "global gx\ngx = \"left\"\nthrow \"after\"", 0),
+               ("globals:set-in-fn", "global gx\nf := func() { gx = {a: 1} }\nf()\nreturn 1 / 0", 0)]
 
 def run(rep, br, proofs, rng, tier):
     n = 400 if tier == "quick" else 6000
@@ -86,6 +94,11 @@ def run(rep, br, proofs, rng, tier):
         if rng.random() < .5: obs, args = rng.choice(OBS)
         else: obs, args = g.program(), []
         rec = rng.choice(["0", "1"])
+        if rng.random() < .25:
+            # globals: values left by earlier runs, Run with and without a globals object
+            hist.insert(rng.randrange(len(hist) + 1), rng.choice(GLOBAL_HIST))
+            obs, args = rng.choice(OBS[-2:])
+            rec += rng.choice(["", "n"])
         # without recovery a panicking history would crash the harness goroutine: it is still recovered there
         c = mk_case("h%d" % i, "history", rec,
                     ["hist"] + [[hexs(s.encode()), str(rng.randrange(2)), str(ms)] for (_, s, ms) in hist],
@@ -117,7 +130,7 @@ def run(rep, br, proofs, rng, tier):
         rep.violation({"property": "C07", "kind": "oracle", "why": why, "case": c["line"][:3000], "script": c["obs"], "history": c["hist"]})
     rep.coverage.update({
         "evaluations": len(cases), "distinct_nontrivial": compared,
-        "rule": "histories of 1-4 runs on one VM, half of them composed (a chain of 1-4 frames, each leaving per-frame state behind: a frame re-used by a discarded or returned self tail call, open try handlers, inside catch / finally / a loop with an unfinished try; the innermost frame ends the run by throw, runtime error, Go callback panic, abort, frame overflow), half drawn from 16 fixed termination shapes (return, closures left on the stack, uncaught error at depth 0 and 200, errors inside nested try/finally, recovered and escaping Go callback panics, frame overflow, value-stack overflow by recursion and by a wide literal, abort of loops, module cache, unfinished try in a loop, 200 locals), each optionally followed by Clear, recovery on or off; then an observed script (fixed shapes with parameters, modules, recursion, try, closures, or a generated program) is run twice on the used VM and once on a new VM; non-trivial = the three outcomes and the Bytecode digests were compared",
+        "rule": "histories of 1-4 runs on one VM, half of them composed (a chain of 1-4 frames, each leaving per-frame state behind: a frame re-used by a discarded or returned self tail call, open try handlers, inside catch / finally / a loop with an unfinished try; the innermost frame ends the run by throw, runtime error, Go callback panic, abort, frame overflow), half drawn from 16 fixed termination shapes (return, closures left on the stack, uncaught error at depth 0 and 200, errors inside nested try/finally, recovered and escaping Go callback panics, frame overflow, value-stack overflow by recursion and by a wide literal, abort of loops, module cache, unfinished try in a loop, 200 locals, values left in globals), each optionally followed by Clear, recovery on or off, Run given a fresh globals object or none; then an observed script (fixed shapes with parameters, modules, recursion, try, closures, or a generated program) is run twice on the used VM and once on a new VM; non-trivial = the three outcomes and the Bytecode digests were compared",
         "samples": [cases[0]["line"][:500]],
         "history_kinds": kinds, "oracle_failures": len(fails)})
 
